@@ -42,15 +42,8 @@ def run_script(code, repo="/repo", env=None, timeout=120, args=()):
                 pass
     res = {"rc": rc, "timed_out": timed_out, "wall_s": round(time.time() - t0, 2),
            "stdout": open(out).read(), "stderr": open(err).read()[-4000:]}
-    for f in (path, out, err):
-        try:
-            os.unlink(f)
-        except OSError:
-            pass
-    try:
-        os.rmdir(d)
-    except OSError:
-        pass
+    import shutil
+    shutil.rmtree(d, ignore_errors=True)
     return res
 
 
